@@ -800,7 +800,11 @@ func grpcStatusFromError(err error) (*statusv1.Status, error) {
 	}
 	if connectErr, ok := asError(err); ok {
 		status.Code = int32(connectErr.Code())
-		status.Message = connectErr.Message()
+		// Error messages may quote bytes received from the peer. Protobuf strings
+		// must be valid UTF-8, so replace any invalid bytes rather than failing
+		// to marshal the status (which would turn every such error into
+		// CodeInternal).
+		status.Message = strings.ToValidUTF8(connectErr.Message(), "\uFFFD")
 		details, err := connectErr.detailsAsAny()
 		if err != nil {
 			return nil, err
